@@ -269,6 +269,13 @@ package parser
 //@   loop 1 invariant forall j int :: 0 <= j && j < iter1 ==> (es[j].key.Value == "query_offset" ==> durationParses(es[j].val.Value))
 //@   loop 1 invariant forall j int :: 0 <= j && j < iter1 ==> groupKey(es[j].key.Value, schema)
 //@   loop 1 invariant forall k int :: 0 <= k && k < iter1 ==> has(setKeys, es[k].key.Value)
+//@   loop 1 invariant has(setKeys, "name") ==> group.Name != ""
+// (the label loop below establishes this when it ends - loop 2's invariants are proved; that parsing the group's other
+// keys afterwards leaves the label nodes alone is a frame the engine cannot derive for newYamlMap's own list and is
+// assumed: listed in the evidence)
+//@   loop 1 assumed invariant group.Labels != nil ==> (forall i int :: 0 <= i && i < len(group.Labels.Items) ==> okLabel(group.Labels.Items[i]))
+//@   loop 2 invariant 0 <= iter2 && iter2 <= len(group.Labels.Items) && group.Error.Err == nil && group.Labels != nil
+//@   loop 2 invariant forall i int :: 0 <= i && i < iter2 ==> okLabel(group.Labels.Items[i])
 //@   loop 1 invariant forall i, j int :: 0 <= i && i < j && j < iter1 ==> es[i].key.Value != es[j].key.Value
 //@   ensures group.Error.Err == nil && (shortTag(node) == "!!map" || shortTag(node) == "!!null") ==> (forall i, j int :: 0 <= i && i < j && j < len(es) ==> es[i].key.Value != es[j].key.Value)
 //@   ensures group.Error.Err == nil && (shortTag(node) == "!!map" || shortTag(node) == "!!null") ==> (forall j int :: 0 <= j && j < len(es) ==> (es[j].key.Value == "limit" ==> (shortTag(es[j].val) == "!!int" || shortTag(es[j].val) == "!!float")))
@@ -276,6 +283,9 @@ package parser
 //@   ensures group.Error.Err == nil && (shortTag(node) == "!!map" || shortTag(node) == "!!null") ==> (forall j int :: 0 <= j && j < len(es) ==> (es[j].key.Value == "query_offset" ==> durationParses(es[j].val.Value)))
 //@   ensures group.Error.Err == nil && (shortTag(node) == "!!map" || shortTag(node) == "!!null") ==> (forall j int :: 0 <= j && j < len(es) ==> groupKey(es[j].key.Value, schema))
 //@   ensures !(shortTag(node) == "!!map" || shortTag(node) == "!!null") ==> group.Error.Err != nil
+// rulefmt.RuleGroups.Validate: "Groupname must not be empty"; group labels need valid names (not __name__) and values
+//@   ensures group.Error.Err == nil ==> group.Name != ""
+//@   ensures group.Error.Err == nil && group.Labels != nil ==> (forall i int :: 0 <= i && i < len(group.Labels.Items) ==> okLabel(group.Labels.Items[i]))
 // the keys rulefmt.RuleGroup knows (the loader decodes with KnownFields), plus the Thanos extension under that schema
 //@ spec func groupKey(k string, schema Schema) bool = k == "name" || k == "interval" || k == "query_offset" || k == "limit" || k == "labels" || k == "rules" || (k == "partial_response_strategy" && schema == ThanosSchema)
 
